@@ -45,6 +45,9 @@ func (s *mshadow) hasv(r Ref) bool {
 // skip: what must not be judged at this step (known findings)
 type mskip struct{ recv, payload bool }
 
+// number of dense r.MdotM(r, r) calls met by the oracle (known finding F-MDOTM-RR)
+var knownRR int
+
 func (s *mshadow) applyM(o MOp) (panics bool, payload []int64, ok bool, sk mskip) {
 	ok = true
 	if o.Op == "V" {
@@ -208,6 +211,18 @@ func (s *mshadow) applyM(o MOp) (panics bool, payload []int64, ok bool, sk mskip
 		}
 		if len(R.v) == 0 || len(B.v) == 0 || (o.MR.S && len(A.v) == 0) {
 			panics = true // storageLocation() of an empty matrix
+			return
+		}
+		if o.MR.S && (o.MA == o.MR || o.MB == o.MR) {
+			panics = true // "result and argument must be different matrices"
+			return
+		}
+		if !o.MR.S && o.MA == o.MR && o.MB == o.MR {
+			// known finding F-MDOTM-RR (listed under C08): dense r.MdotM(r, r) takes the column-buffered
+			// schedule and overwrites columns of the left factor it still needs; not judged, the shadow
+			// is resynchronised from the implementation
+			sk.recv = true
+			knownRR++
 			return
 		}
 		res := make([]float64, len(R.v))
